@@ -312,6 +312,35 @@ TEMPLATES["TruncatedPDF.mean_var"] = (lambda P: jnp.concatenate([_trunc(P, tmod.
 TEMPLATES["Truncated.onesided"] = (lambda P: tmod.TruncatedGaussianMeasure(measure=measure.GaussianMeasure(Lambda=jnp.exp(P["c0"]).reshape(1, 1, 1), nu=P["c1"].reshape(1, 1)), lower_limit=P["w1"].reshape(1, 1)).integrate("x").ravel(), False, 1e-6)
 
 
+def _kalman(P, use_scan):
+    """The notebook's filter: density as the carry of lax.scan (or of a Python loop), conditionals closed over."""
+    trans = conditional.ConditionalGaussianPDF(M=R1(P["M1"] * 0.5), b=R1(P["b1"]), Sigma=R1(spd(P["B2"])))
+    emis = conditional.ConditionalGaussianPDF(M=R1(P["W1"]), b=R1(P["w1"]), Sigma=R1(jnp.exp(P["c0"]).reshape(1, 1)))
+    obs = P["y"][:, :1]
+
+    def step(carry, y_t):
+        filt, ll = carry
+        pred = trans.affine_marginal_transformation(filt)
+        ll = ll + emis.affine_marginal_transformation(pred).evaluate_ln(y_t[None])[0, 0]
+        filt = emis.affine_conditional_transformation(pred).condition_on_x(y_t[None])
+        return (filt, ll), filt.mu[0]
+
+    carry = (_prior(P), jnp.zeros(()))
+    if use_scan:
+        (filt, ll), mus = jax.lax.scan(step, carry, obs)
+    else:
+        mus = []
+        for t in range(obs.shape[0]):
+            carry, m = step(carry, obs[t])
+            mus.append(m)
+        (filt, ll), mus = carry, jnp.stack(mus)
+    return jnp.concatenate([mus.ravel(), filt.Sigma.ravel(), ll[None]])
+
+
+TEMPLATES["Kalman.python_loop"] = (lambda P: _kalman(P, False), False, 1e-6)
+TEMPLATES["Kalman.lax_scan"] = (lambda P: _kalman(P, True), False, 1e-6)
+
+
 # ---------------------------------------------------------------------------
 # vmap over the data axis vs the SAME program run eagerly on the whole batch (row-wise programs with a known layout)
 def _condR2(P):
@@ -403,6 +432,11 @@ def run_shard(shard, ctx):
         f, data, gtol = TEMPLATES[shard["name"]]
         if ctx.case(dict(template=shard["name"])):
             check_program(ctx, shard["name"], f, P, data, gtol, dict(template=shard["name"]))
+            if shard["name"] == "Kalman.lax_scan":
+                full = dict(P)
+                full["x"], full["y"] = J(DATA["x"]), J(DATA["y"])
+                with ctx.guard("program.scan_vs_loop", dict(template=shard["name"])):
+                    ctx.close("program.scan_vs_loop", np.asarray(_kalman(full, True)), np.asarray(_kalman(full, False)), facts=dict(template=shard["name"]), symptom="scan_differs")
             ctx.count("states")
             ctx.count("transitions")
         return
